@@ -16,7 +16,8 @@ CHECKS = {
         "pin name, solve, str, print_S, show_free_pins, inspect for int and float arguments, every documented block) is an exhaustive "
         "enumeration of a finite table — finite checking, labelled so."
         " Blocks added after seeded changes were missed: BeamSplitter with explicit transmission t (boundary values) and UserWaveguide with two modes of different key sets. Coefficients are looked up BY PIN NAME in the documented pin order (not only as a raw matrix); UserWaveguide is sampled with modes declared in unsorted order; BeamSplitter with a transmission argument is covered. A phase shifter whose shift is given only through the constructor default (renamed parameter, nothing passed at solve time) is sampled too. For half of the samples a second instance of the block (other arguments) is built and solved before the sample is read."
-        " On every run harness/translate_blocks.py executes the CURRENT source of Waveguide, PhaseShifter, PushPullPhaseShifter, TH_PhaseShifter, Attenuator, LinearAttenuator, Mirror, PerfectMirror, BeamSplitter (both forms), Splitter1x2 and PolRot (both forms) symbolically over the reals and coq/templates/BlocksSrcProof.v proves every entry equal to the Blocks.v definition for all parameter values (13 theorems; axioms: Coq reals + classic, checked).",
+        " On every run harness/translate_blocks.py executes the CURRENT source of Waveguide, PhaseShifter, PushPullPhaseShifter, TH_PhaseShifter, Attenuator, LinearAttenuator, Mirror, PerfectMirror, BeamSplitter (both forms), Splitter1x2 and PolRot (both forms) symbolically over the reals and coq/templates/BlocksSrcProof.v proves every entry equal to the Blocks.v definition for all parameter values (13 theorems; axioms: Coq reals + classic, checked)."
+        " The interface half also parses what print_S prints (real part, imaginary part, default modulus) and compares it entry by entry with the matrix.",
    note="Trusted: Coq kernel; Coq.Reals axioms (ClassicalDedekindReals.sig_forall_dec, sig_not_dec, functional_extensionality_dep, "
         "Classical_Prop.classic) and what Interval/Flocq/Coquelicot add (listed per theorem and per generated lemma in the evidence); "
         "hand-written model Blocks.v; harness sampling. User index functions enter as their value. Follows the fixed code (F22-F24). The "
@@ -169,7 +170,8 @@ CHECKS = {
         "inserts empty models and dead solvers (nested, shared between placements) at random places and depths, calls prune() on /repo "
         "and compares the returned flag, the tree of remaining structures at every level, and solve() after prune with the model."
         " Dead leaves include pin-less models that carry a matrix and unmapped solved results; after prune the free pins of every surviving level are compared with the unconnected ports of the surviving components. Dead branches that still own connected pins (a sub-solver wired while it had pins, emptied before prune()) are generated too; a prune() that raises is reported with the hierarchy as replay."
-        " On every run harness/translate_prune.py reads the CURRENT source of Solver.prune and Model.is_empty and coq/templates/PruneSrcProof.v proves prune_src c = (Prune.prune c, Prune.dead c) for every hierarchy (closed).",
+        " On every run harness/translate_prune.py reads the CURRENT source of Solver.prune and Model.is_empty and coq/templates/PruneSrcProof.v proves prune_src c = (Prune.prune c, Prune.dead c) for every hierarchy (closed)."
+        " Wired dead branches and placed empty models are declared monitors in half of the cases: after prune() nothing of them may stay behind.",
    note="Trusted: Coq kernel + vm_compute; Bignums primitives for the executed instance; models Prune.v/Hier.v tied by sampled "
         "correspondence; harness. prune_same_matrix assumes dead sub-solvers hold no connections (nothing can be wired to a pin-less "
         "structure) and is conditional on the model returning Ok.",
@@ -246,7 +248,8 @@ CHECKS = {
         "lossless premise); all reciprocal => the result is symmetric. Proved at network level (a flux that cancels over each connection "
         "and has a sign over each component) and transferred to the solved matrix via solve_sound + solve_complete. Closed under the global "
         "context. The tie runs /repo on circuits of exactly unitary (Cayley transform), contractive and symmetric rational components and "
-        "lets Coq check, in exact arithmetic, agreement with the model AND T^H T = I / T = T^T / |Tu|^2 <= |u|^2 on the observed matrices. 30 % of the circuits declare a random subset (>= 2 structures where possible) as monitors before solving. 30 % of the circuits are built in two steps (all links but one, a solve, then the last link). 30 % of the circuits (monitored or not) are placed in a parent with all pins raised and read through it.",
+        "lets Coq check, in exact arithmetic, agreement with the model AND T^H T = I / T = T^T / |Tu|^2 <= |u|^2 on the observed matrices. 30 % of the circuits declare a random subset (>= 2 structures where possible) as monitors before solving. 30 % of the circuits are built in two steps (all links but one, a solve, then the last link). 30 % of the circuits (monitored or not) are placed in a parent with all pins raised and read through it."
+        " A quarter of the cases use components with four pins, with three or more links between one pair declared in scrambled pin order.",
    note="Trusted: Coq kernel + vm_compute; Bignums primitives for the executed instance; model tied by sampled correspondence; harness. "
         "Conditional on the model returning Ok. /repo receives the binary64 roundings of the exact rational components.",
    technique="Coq proof (network-level flux balance, all circuits) + vm_compute correspondence and oracle checks on observed matrices", design="§5 C08"),
